@@ -160,7 +160,7 @@ def _asset_has_node(a, n):
 
 def run_pipeline(real, solver='SCIPY', split=None):
     """the real pipeline: set-up -> optimize -> extract_output"""
-    op = real.setup_split(split) if split else real.setup()
+    op = real.setup() if (not split or split == 'cfg') else real.setup_split(split)
     with quiet():
         res = op.optimize(solver=solver) if solver else op.optimize()
     if isinstance(res, str):
